@@ -14,7 +14,8 @@ Inductive ostate :=
 Inductive oevent :=
 | OAcquire (g : N)            (* g receives true from the channel and calls f *)
 | ODone (g : N) (v : N)       (* f returned v (value or non-cancellation error): store, close, return (true, v) *)
-| OCancelF (g : N)            (* f returned context.Canceled/DeadlineExceeded: put true back, return (false, nil, err) *)
+| OCancelF (g : N)            (* f returned an error that Is context.Canceled/DeadlineExceeded (possibly wrapped,
+                                 as net/http does; since fix 93f5889): put true back, return (false, nil, err) *)
 | OReadClosed (g : N) (v : N) (* g receives from the closed channel and returns (false, v) *)
 | OCtxDone (g : N).           (* g's own context is done while waiting: return (false, nil, ctx.Err()) *)
 
